@@ -301,6 +301,82 @@ Section Bytes.
       rewrite firstn_app_exact, skipn_app_exact by assumption. reflexivity.
   Qed.
 
+  (* tag and body octets of a packet as PGPy frames it *)
+  Definition tag_body (p : pkt) : option (Z * bytes) :=
+    match p with
+    | POps o => Some (4, ops_body o)
+    | PSig s => Some (2, s_raw s)
+    | PLit l => match lit_body l with Some b => Some (11, b) | None => None end
+    | PComp a inner =>
+      if valid_calg a then
+        match emit_pkts compress inner with Some pb => Some (8, a :: compress a pb) | None => None end
+      else None
+    | PPkesk b => Some (1, b)
+    | PSkesk b => Some (3, b)
+    | PSed b => Some (9, b)
+    | PSeipd b => Some (18, b)
+    | PMarker b => Some (10, b)
+    | PMdc b => Some (19, b)
+    | POther t b => Some (t, b)
+    end.
+  Lemma emit_tag_body p : emit_pkt compress p = match tag_body p with Some (t, b) => frame t b | None => None end.
+  Proof.
+    destruct p; cbn [emit_pkt tag_body]; try reflexivity.
+    - destruct (lit_body l); reflexivity.
+    - destruct (valid_calg alg); [|reflexivity]. fold (emit_pkts compress inner). destruct (emit_pkts compress inner); reflexivity.
+  Qed.
+  Lemma wf_tag_body p t b : wf_pkt p -> tag_body p = Some (t, b) -> 0 <= t < 64 /\ small b.
+  Proof.
+    intros W E. destruct W as [o Hk Ht Ha|s b' Hr Hp Hs|l b0 Hb Ht Hd Hs|a inner pb Hv Hf He Hs|b0 Hs|b0 Hs|b0 Hs|b0 Hs|b0 Hs|b0 Hl];
+      cbn [tag_body] in E; try (inversion E; subst; split; [lia|assumption]).
+    - inversion E; subst. split; [lia|]. unfold small, ops_body. rewrite !app_length, Hk. cbn [length]. lia.
+    - rewrite Hb in E. inversion E; subst. split; [lia|assumption].
+    - rewrite Hv, He in E. inversion E; subst. split; [lia|assumption].
+    - inversion E; subst. split; [lia|]. unfold small. rewrite Hl. lia.
+  Qed.
+  Lemma frame_some tag body : 0 <= tag < 64 -> small body -> exists x, frame tag body = Some x.
+  Proof.
+    intros Ht Hs. unfold frame.
+    destruct (new_header_roundtrip tag (Z.of_nat (length body)) 1 [] Ht) as (bs & h' & E & _); [unfold small in Hs; lia|].
+    rewrite E. eauto.
+  Qed.
+
+  (* a well-formed packet in ANY framing that decodes to its tag, length and body is parsed to the same packet:
+     covers partial body lengths and old-format headers of other producers *)
+  Theorem foreign_framing_same_packet rec p t b enc y h :
+    wf_pkt p -> tag_body p = Some (t, b) ->
+    (forall a inner pb, p = PComp a inner -> emit_pkts compress inner = Some pb -> rec pb = Ok inner) ->
+    header_parse (enc ++ y) = Some (h, b ++ y) -> h_tag h = t -> h_len h = Z.of_nat (length b) ->
+    parse_one decompress rec (enc ++ y) = Ok (p, y).
+  Proof.
+    intros W E R HP HT HL. destruct (wf_tag_body p t b W E) as (Ht & Hs).
+    destruct (frame_some t b Ht Hs) as (x & Fx).
+    assert (Ex : emit_pkt compress p = Some x) by (rewrite emit_tag_body, E; exact Fx).
+    destruct (parse_one_emit rec p x y W Ex R) as (_ & P).
+    destruct (frame_parse t b x y Ht Hs Fx) as (_ & h1 & HP1 & T1 & L1).
+    rewrite <- P. apply (parse_one_framing decompress rec (enc ++ y) (x ++ y) h h1 (b ++ y)); [exact HP|exact HP1|rewrite HT, T1; reflexivity|rewrite HL, L1; reflexivity].
+  Qed.
+  Corollary partial_framing_same_packet rec p t b ks y :
+    wf_pkt p -> tag_body p = Some (t, b) ->
+    (forall a inner pb, p = PComp a inner -> emit_pkts compress inner = Some pb -> rec pb = Ok inner) ->
+    Forall (fun k => 0 <= k < 31) ks ->
+    parse_one decompress rec (frame_partial t ks b ++ y) = Ok (p, y).
+  Proof.
+    intros W E R Hk. destruct (wf_tag_body p t b W E) as (Ht & Hs).
+    destruct (frame_partial_parse t ks b y Ht Hk Hs) as (h & HP & T & L).
+    apply (foreign_framing_same_packet rec p t b _ y h W E R HP T L).
+  Qed.
+  Corollary old_framing_same_packet rec p t b w x y :
+    wf_pkt p -> tag_body p = Some (t, b) ->
+    (forall a inner pb, p = PComp a inner -> emit_pkts compress inner = Some pb -> rec pb = Ok inner) ->
+    0 <= t < 16 -> (w = 1 \/ w = 2 \/ w = 4) -> frame_old t w b = Some x ->
+    parse_one decompress rec (x ++ y) = Ok (p, y).
+  Proof.
+    intros W E R Ht Hw Fx. destruct (wf_tag_body p t b W E) as (_ & Hs).
+    destruct (frame_old_parse t w b x y Ht Hw Hs Fx) as (h & HP & T & L).
+    apply (foreign_framing_same_packet rec p t b _ y h W E R HP T L).
+  Qed.
+
   Lemma emit_pkts_cons p ps b : emit_pkts compress (p :: ps) = Some b ->
     exists x y, emit_pkt compress p = Some x /\ emit_pkts compress ps = Some y /\ b = x ++ y.
   Proof.
@@ -376,3 +452,7 @@ Proof.
     + eapply W_lit; [vm_compute; reflexivity|vm_compute; reflexivity|repeat constructor; lia|vm_compute; reflexivity].
     + constructor; [|constructor]. eapply W_sig; [reflexivity|vm_compute; reflexivity|vm_compute; reflexivity].
 Qed.
+
+Lemma example_framing_premises :
+  wf_pkt id_compress (PLit lit_example) /\ tag_body id_compress (PLit lit_example) = Some (11, [98; 0; 0; 0; 0; 0; 104; 105]).
+Proof. split; [eapply W_lit; [vm_compute; reflexivity|vm_compute; reflexivity|repeat constructor; lia|vm_compute; reflexivity]|reflexivity]. Qed.
